@@ -1437,6 +1437,28 @@ def M_str_trim(it, ctx, args, st):
     yield st, st.ref(bstr_slice(s, z3.simplify(lead), z3.simplify(end)))
 
 
+def M_str_trim_side(side):
+    def f(it, ctx, args, st):
+        """str::trim_start / trim_end for ASCII whitespace (see M_str_trim)"""
+        s = sval(st, args[0])
+        ws = lambda b: z3.Or(b == 32, z3.And(z3.UGE(b, 9), z3.ULE(b, 13)))
+        K = len(s.bytes)
+        if side == 'start':
+            lead, run = bv(0), z3.BoolVal(True)
+            for i in range(K):
+                run = z3.And(run, z3.UGT(s.len, bv(i)), ws(s.bytes[i]))
+                lead = z3.If(run, bv(i + 1), lead)
+            yield st, st.ref(bstr_slice(s, z3.simplify(lead), s.len))
+        else:
+            trail, run = bv(0), z3.BoolVal(True)
+            for k in range(K):
+                b = bstr_byte(s, s.len - 1 - bv(k))
+                run = z3.And(run, z3.UGT(s.len, bv(k)), ws(b))
+                trail = z3.If(run, bv(k + 1), trail)
+            yield st, st.ref(bstr_slice(s, bv(0), z3.simplify(s.len - trail)))
+    return f
+
+
 def M_fold(it, ctx, args, st):
     itv, init, clo = itval(st, args[0]), args[1], args[2]
 
@@ -2619,7 +2641,7 @@ MODELS = [
     (P + r'num::<impl u8>::is_ascii_punctuation', M_u8_class('is_ascii_punctuation')),
     (P + r'num::<impl u8>::is_ascii_graphic', M_u8_class('is_ascii_graphic')),
     (P + r'num::<impl u8>::is_ascii_control', M_u8_class('is_ascii_control')),
- (P + r'str::<impl str>::trim', M_str_trim), (ITER + r'fold::<.*>', M_fold), (ITER + r'try_fold::<.*>', M_try_fold),
+ (P + r'str::<impl str>::trim', M_str_trim), (P + r'str::<impl str>::trim_start', M_str_trim_side('start')), (P + r'str::<impl str>::trim_end', M_str_trim_side('end')), (ITER + r'fold::<.*>', M_fold), (ITER + r'try_fold::<.*>', M_try_fold),
     (ITER + r'max_by::<.*>', M_max_by),
     (ITER + r'max_by_key::<.*>', M_max_by_key), (ITER + r'min_by_key::<.*>', lambda it, ctx, args, st: M_max_by_key(it, ctx, args, st, True)),
     (r'<' + P + r'(slice::Iter|iter::\w+|str::Chars|vec::IntoIter|collections::btree_set::Iter|collections::btree_map::Iter)<.*> as ' + P + r'iter::Iterator>::next', M_iter_next),
